@@ -81,3 +81,19 @@ func Count(evs []Ev, k string, a, b int) int {
 	}
 	return n
 }
+
+// Cell is an int shared by tasks of one execution (scheduler-serialised); its
+// methods are //go:norace so harness bookkeeping is invisible to the race detector.
+type Cell struct{ v int }
+
+//go:norace
+func (c *Cell) Inc() int { c.v++; return c.v }
+
+//go:norace
+func (c *Cell) Dec() int { c.v--; return c.v }
+
+//go:norace
+func (c *Cell) Get() int { return c.v }
+
+//go:norace
+func (c *Cell) Set(v int) { c.v = v }
